@@ -17,6 +17,7 @@ import (
 	"encoding/json"
 	"fmt"
 	"os"
+	"path/filepath"
 	"strings"
 	"time"
 
@@ -33,6 +34,7 @@ type childSpec struct {
 	N       int       `json:"n"`     // histories / scenarios in this batch
 	Steps   int       `json:"steps"` // steps per sequential history
 	Race    bool      `json:"race"`
+	Live    bool      `json:"live,omitempty"`   // start the module system first
 	Shared  string    `json:"shared,omitempty"` // directory shared by a live/restart pair
 	History *history  `json:"history,omitempty"`
 	Scen    *concScen `json:"scen,omitempty"`
@@ -82,9 +84,9 @@ func main() {
 		bin := cfg.BinPlain
 		add("replay", bin, cs, 5*time.Minute)
 	} else {
-		nSeq, nHist, steps := cfg.N(16, 64), cfg.N(24, 60), cfg.N(50, 70)
-		nConcPlain, nConcRace, nScen := cfg.N(10, 40), cfg.N(8, 32), cfg.N(5, 8)
-		nLive := cfg.N(3, 12)
+		nSeq, nHist, steps := cfg.N(32, 160), cfg.N(24, 60), cfg.N(50, 70)
+		nConcPlain, nConcRace, nScen := cfg.N(16, 80), cfg.N(12, 64), cfg.N(5, 8)
+		nLive := cfg.N(4, 24)
 		for i := 0; i < nSeq; i++ {
 			add(fmt.Sprintf("seq-%03d", i), cfg.BinPlain, childSpec{Mode: "seq", Batch: i, N: nHist, Steps: steps}, 10*time.Minute)
 		}
@@ -96,11 +98,22 @@ func main() {
 				add(fmt.Sprintf("race-%03d", i), cfg.BinRace, childSpec{Mode: "conc", Batch: 1000 + i, N: nScen, Race: true}, 15*time.Minute)
 			}
 		}
-		_ = nLive
+		for i := 0; i < nLive; i++ {
+			sh := filepath.Join(cfg.OutDir, fmt.Sprintf("shared-%03d", i))
+			_ = os.MkdirAll(sh, 0o755)
+			add(fmt.Sprintf("live-%03d", i), cfg.BinPlain, childSpec{Mode: "live", Batch: i, Steps: steps, Shared: sh}, 5*time.Minute)
+		}
+		// concurrent scenarios with the module system running (change events, update pushes)
+		for i := 0; i < cfg.N(2, 6); i++ {
+			add(fmt.Sprintf("liveconc-%03d", i), cfg.BinPlain, childSpec{Mode: "conc", Batch: 2000 + i, N: nScen, Live: true}, 10*time.Minute)
+			if cfg.BinRace != "" {
+				add(fmt.Sprintf("liverace-%03d", i), cfg.BinRace, childSpec{Mode: "conc", Batch: 3000 + i, N: nScen, Race: true, Live: true}, 15*time.Minute)
+			}
+		}
 	}
 	tco := map[string]bool{}
-	handle := func(i int, c *vlib.ChildResult) {
-		cs := cspecs[i]
+	var handleOne func(cs childSpec, c *vlib.ChildResult)
+	handleOne = func(cs childSpec, c *vlib.ChildResult) {
 		rep.Seen("child_modes", cs.Mode+map[bool]string{true: "/race", false: "/plain"}[cs.Race])
 		if cb := rep.MergeChild(c); cb != nil {
 			for _, m := range cb.SeenSets["type_constraint_op"] {
@@ -125,8 +138,19 @@ func main() {
 		if !c.Done {
 			rep.Violation("C04:fatal:"+fatalSite(c.StderrTail(4000)), fmt.Sprintf("child %s died (exit=%d signal=%q) while driving the config package", c.Name, c.Exit, c.Signal),
 				map[string]any{"mode": "fatal", "child": cs, "stderr_tail": c.StderrTail(4000)})
+			return
+		}
+		if cs.Mode == "live" {
+			// phase 2: a new process starts the modules on the same data root
+			rs := cs
+			rs.Mode = "restart"
+			rc := vlib.RunChild(cfg, vlib.ChildSpec{Name: strings.Replace(c.Name, "live", "restart", 1), Bin: cfg.BinPlain, Spec: rs, Timeout: 5 * time.Minute})
+			handleOne(rs, rc)
+			_ = os.RemoveAll(rc.Dir)
+			_ = os.RemoveAll(cs.Shared)
 		}
 	}
+	handle := func(i int, c *vlib.ChildResult) { handleOne(cspecs[i], c) }
 	vlib.RunChildren(cfg, specs, handle)
 
 	if cfg.Replay == "" {
@@ -240,7 +264,17 @@ func childMain(dir string) {
 		sr.runHistory(*cs.History, 1)
 		b.DistinctS("replay-a")
 		b.DistinctS("replay-b")
+	case "live":
+		runLive(b, cs, scratch)
+	case "restart":
+		runRestart(b, cs, scratch)
 	case "conc":
+		if cs.Live {
+			if _, err := startLive(scratch); err != nil {
+				b.Inconclusive("live concurrent child: %v", err)
+				break
+			}
+		}
 		for s := 0; s < cs.N; s++ {
 			r := vlib.NewRand(cs.Seed, fmt.Sprintf("C04/conc/%d", cs.Batch), uint64(s))
 			sc := genConcScen(r, fmt.Sprintf("c%ds%d", cs.Batch, s), cs.Race, cs.Tier == "thorough")
